@@ -134,7 +134,7 @@ func runHistory(r *evid.Run, name, backend string, h *ndblab.History, onDisk boo
 func main() {
 	ensureRaceLog()
 	r := evid.Start("C06", "exploration")
-	r.Rule = "sequential: PRNG-generated NodeDB version histories (1-3 state candidates per version derived from the previous finalized state root with remove+re-insert of the same pair, resurrection of pairs removed earlier, unchanged/empty/identical/superset candidates; 0-2 IO candidates from empty whose pairs may coincide with state pairs; arbitrary finalized choice; prune lag 1..3; failing metadata probes) run on badger and pathbadger with a full read-back of every root after every operation; a history is non-trivial when a discarded candidate shares at least one node with a root finalized in the same Finalize and at least one Prune succeeded. concurrent: one writer with H3 delays against reader goroutines, non-trivial when reads overlapped a Finalize and a Prune."
+	r.Rule = "sequential: PRNG-generated NodeDB version histories (1-3 state candidates per version derived from the previous finalized state root with remove+re-insert of the same pair, resurrection of pairs removed earlier, unchanged/empty/identical/superset candidates; 0-2 IO candidates from empty whose pairs may coincide with state pairs; arbitrary finalized choice; prune lag 1..3; failing metadata probes; every second history in a clean mode that avoids the shapes already known to damage hashed badger so that badger is also driven to full depth; every tenth with badger-only same-version child roots) run on badger and pathbadger with a full read-back of every root after every operation; a history is non-trivial when a discarded candidate shares at least one node with a root finalized in the same Finalize and at least one Prune succeeded. concurrent: one writer with H3 delays against reader goroutines, non-trivial when reads overlapped a Finalize and a Prune."
 	r.Assume("the pure model of root contents (map semantics of insert/remove) is correct; root hashes are taken from tree.Commit of the code under test")
 	r.Assume("SyncGet proofs are verified by the tree's own ProofVerifier (C04 checks the verifier independently)")
 	r.Assume("concurrency is explored by stress with injected delays, not by schedule enumeration; a clean race-detector run is not a proof of race freedom")
@@ -207,7 +207,7 @@ func main() {
 		r.Count(k, stats[k])
 	}
 	statMu.Unlock()
-	r.Finish(r.Pick(20, 400))
+	finish(r, r.Pick(20, 400))
 }
 
 // diffSnapshots compares the API-visible state of both backends after every op.
@@ -265,9 +265,15 @@ func reportRaces(r *evid.Run) {
 		r.Violation("race/"+raceFrames(rep.Text), "data race reported by the race detector ("+fmt.Sprint(rep.Count)+" times): "+rep.Key,
 			map[string]any{"seed": r.Seed, "tier": r.Tier, "report": rep.Text})
 	}
+}
+
+// finish removes the private scratch directory (only present when the binary
+// re-executed itself to get a race log path) and ends the run.
+func finish(r *evid.Run, floor int) {
 	if d := os.Getenv("VERIF_C06_OWN_SCRATCH"); d != "" {
-		defer os.RemoveAll(d)
+		_ = os.RemoveAll(d)
 	}
+	r.Finish(floor)
 }
 
 // replay re-runs the history of a witness file on its backend(s).
@@ -303,7 +309,7 @@ func replay(r *evid.Run) {
 	}
 	r.Nontrivial("replay-a")
 	r.Nontrivial("replay-b")
-	r.Finish(0)
+	finish(r, 0)
 }
 
 // raceFrames returns the innermost non-runtime function of each of the two
